@@ -105,6 +105,17 @@ def run(project: Project, rep, tier: str):
     if not isinstance(r_h, Sc) or unmodelled_in(r_h.e):
         rep.unmodelled("HT-DIST", fi_h, fi_h.node, f"distance not fully modelled: {r_h!r}"[:300])
         return
+    for ev in I_h.log:
+        if ev["kind"] == "sort-columns" and ev["fi"] is fi_h:
+            rep.refuted("HT-DIST", fi_h, ev["node"],
+                        "a diagram's birth and death columns are sorted independently (np.sort(..., axis=0)) to decide the "
+                        "distance: different diagrams with the same births and deaths, paired differently, get distance 0 "
+                        "(F=[[0,2],[1,3]], G=[[0,3],[1,2]]: true distance 0.1546)")
+    # a short-cut `return <constant>` under an input-equality test is looked at separately from the main formula
+    rets = [ev for ev in I_h.log if ev["kind"] == "return" and ev["fi"] is fi_h]
+    main_vals = [ev["value"] for ev in rets if isinstance(ev["value"], Sc) and ev["value"].e[0] != "num"]
+    if len(rets) > 1 and len(main_vals) == 1:
+        r_h = main_vals[0]
     rad = sym.add(sym.add(kernel_spec("F", "F", sigma), kernel_spec("G", "G", sigma)),
                   sym.scale(kernel_spec("F", "G", sigma), -2.0))
     specs = [sym.fn("sqrt", sym.fn("max", rad, sym.ZERO)), sym.fn("sqrt", rad)]
